@@ -268,6 +268,14 @@ func nearMisses() []ParseCase {
 	rej(".** bounds", "$.**{-1}", "$.**{}", "$.**{1 to}", "$.**{to 1}", "$.**{1.5}", "$.**{a}", "$.**{1,2}", "$.**{1 to 2 to 3}", "$.**{$}", "$**", "$.**{", "$.**{+1}")
 	acc(".** bounds", "$.**", "$.**{1}", "$.**{1 to 2}", "$.**{last}", "$.**{1 to last}", "$.**{last to 1}", "$.**{0}")
 	rej("structure", "", " ", "$.", "$..a", "$[", "$[]", "$[1,]", "$[,1]", "$ ?", "$ ? ()", "$ ? (1)", "$ ? ($.a)", "$ ? (@.a)", "$ &&", "$ ==", "== 1", "$ == == 1", "1 +", "* 2", "$ ? (@ > 1", "$ ? @ > 1", "($", "$)", "$ $", "$ 1", "1 2", "lax", "strict", "lax strict $", "strict lax $", "lax lax $", "$ lax", "exists($ == 1)", "exists()", "exists $", "!$", "! $.a", "!($.a)", "$ is unknown", "($.a) is unknown", "($ == 1) is", "($ == 1) is known", "$ starts with 1", "$ starts with $.a", "$ starts $x", "$ with \"a\"", "$ like_regex 1", "$ like_regex $x", "$ like_regex \"a\" flag", "$ like_regex \"a\" flag i", "$ like_regex", "$.a.()", "$.abs(", "1.type()", "1.a", "$.1", "$.a[1 to]", "$[to 1]", "$[1 to 2 to 3]", "$.a b", "$.\"a\"\"b\"", "$ == 1 == 2", "$ < 1 < 2", "1 == 1 starts with \"a\"", "$ ? (@ == 1 == 2)", "($ == 1) + 1", "1 + ($ == 1)", "-($ == 1)", "$[$ == 1]", "true && false", "$.a && $.b", "1 && 2", "!true", "TRUE", "FALSE", "NULL", "True", "$ == TRUE", "$ == Null", "$x.", "$.$x", "$.a.$", "$$", "$.a$b", "$ ? (@ == 1))", "$.*.", "$.a[*", "$.a*]", "$ ? (@ == 1) (", "#", "$ # 1", "$ ; $", "$ = 1", "$ & $", "$ | $", "$ ~ 1", "$ ^ 1", "$ ! = 1", "$ < > 1", "$ > = 1", "$ = = 1", "$ & & $", "a", "a.b", ".a", "[0]", "$ . size ( ) ( )")
+	// deep and long inputs: recursion depth and buffer handling (accepted, no panic, no hang)
+	deep := 20000
+	acc("deep or long input",
+		strings.Repeat("-", deep)+"$", strings.Repeat("(", deep)+"1"+strings.Repeat(")", deep), "$"+strings.Repeat("[0]", deep), "$"+strings.Repeat(".a", deep),
+		strings.Repeat("!(", deep)+"1==1"+strings.Repeat(")", deep), "$"+strings.Repeat("?(exists(@", deep/4)+strings.Repeat("))", deep/4), "1"+strings.Repeat("+1", deep),
+		"1==1"+strings.Repeat("&&1==1", deep), strings.Repeat("$[", deep/2)+"0"+strings.Repeat("]", deep/2), `"`+strings.Repeat("a", 1<<20)+`"`, "$ /*"+strings.Repeat("*", 1<<20)+"*/",
+		"$."+strings.Repeat("a", 1<<18), strings.Repeat("9", 18)+" + 0."+strings.Repeat("0", 5000)+"1")
+	rej("deep or long malformed input", strings.Repeat("(", deep)+"1", "$"+strings.Repeat("[", deep), `"`+strings.Repeat("a", 1<<20), "$ /*"+strings.Repeat("*", 1<<20), strings.Repeat("9", 5000), "1e"+strings.Repeat("9", 5000))
 	acc("structure", "$", "lax $", "strict $", "LAX $", "Strict $", "$.a", "$.a.b", `$."a b"`, "$[0]", "$[0,1]", "$[0 to 1]", "$[*]", "$.*", "$ ? (@ == 1)", "$?(@==1)", "$ ? (@.a == 1 && @.b == 2)", "$ == 1", "1 == 1", "(1 == 1)", "((1 == 1))", "!(1 == 1)", "!exists($)", "exists($)", "(1 == 1) is unknown", "((1 == 1)) is unknown", "$ starts with \"a\"", "$ starts with $x", "$ like_regex \"a\"", "1 + 1", "-$", "+$", "- $.a", "-1", "+1", "-1.5", "(1)", "((1))", "(1).type()", "(1 == 1).type()", "($.a).b", "(($.a).b).c", "$x", `$"x y"`, "$.a.size()", "$.a . size ( )", "true", "false", "null", "$.true", "$.null", "$.last", "$.lax", "$.strict", "$.exists", "$.is", "$.to", "$.with", "$.flag", "$.like_regex", "$.starts", "$.unknown", "$.abs", "$.keyvalue", "$.decimal", "$.datetime", "$.time_tz", "$.timestamp_tz", "\"a\"", "\"a\".type()", "$ ? (@ == 1) ? (@ == 2)", "$.a ? (@ > 1).b", "$ != 1", "$ <> 1", "$ <= 1", "$ >= 1", "$ < 1", "$ > 1", "1 + 2 * 3", "(1 + 2) * 3", "$[1 + 1]", "$[$.a]", "$[\"a\"]", "$[true]", "$ ? (@ == 1 || @ == 2 && @ == 3)", "$.a == $.b", "$x == $y", "($ == 1)", "1 .type()", "1.5.type()", "-1 .abs()", "- -1", "-(-1)", "+-+1", "- - $", "-(1+2)", "9223372036854775807", "-9223372036854775807", "$.abs", "$.a.size", `$.a\u0041`, `$.\u0061b`, `$.a\x41b`, `$.\x61`)
 	return out
 }
@@ -368,6 +376,9 @@ func TestC04(t *testing.T) {
 				continue
 			}
 			in := c.bytes()
+			if len(in) > 200 {
+				continue // the deep/long controls are not truncated at every offset
+			}
 			for k := 0; k < len(in); k++ {
 				i++
 				if !mine(i) {
